@@ -21,8 +21,10 @@ func main() {
 		runC23(o)
 	case "C22":
 		runC22(o)
+	case "C09":
+		runC09(o)
 	default:
-		fmt.Fprintln(os.Stderr, "stake engine: -prop must be one of C10 C11 C23 C22")
+		fmt.Fprintln(os.Stderr, "stake engine: -prop must be one of C10 C11 C23 C22 C09")
 		os.Exit(2)
 	}
 }
